@@ -851,6 +851,12 @@ impl XmlAttributeValue {
                 }
                 parser::Reference::Entity(v) => {
                     let entity = context.entity(v)?;
+                    // WFC: No External Entity References
+                    if entity.borrow().system_identifier().is_some() {
+                        return Err(error::Error::InvalidData(v.to_string()));
+                    }
+                    // WFC: Entity Declared, No Recursion (in the replacement text)
+                    attr_value_from_name(v, context)?;
                     let entity =
                         XmlUnexpandedEntityReference::node(entity, Some(parent_id), context);
                     Ok(Some(XmlAttributeValue::Entity(entity)))
@@ -2358,6 +2364,12 @@ impl XmlElement {
                         }
                         parser::Reference::Entity(v) => {
                             let entity = context.entity(v)?;
+                            // WFC: Parsed Entity
+                            if entity.borrow().notation_name().is_some() {
+                                return Err(error::Error::InvalidData(v.to_string()));
+                            }
+                            // WFC: Entity Declared, No Recursion (in the replacement text)
+                            entity_value_from_name(v, context, false)?;
                             let entity =
                                 XmlUnexpandedEntityReference::node(entity, element_id, context);
                             element.borrow_mut().push_child(entity);
@@ -4339,7 +4351,17 @@ fn attr_value_from_name(name: &str, context: &Context) -> error::Result<String> 
 /// Replacement text of the entity. In an attribute value (`normalize`) every white space
 /// character of the replacement text becomes a space; in content it is included as it is.
 fn entity_value_from_name(name: &str, context: &Context, normalize: bool) -> error::Result<String> {
-    let entity = context.entity(name)?;
+    entity_value_from_names(&mut vec![name.to_string()], context, normalize)
+}
+
+/// `names` is the chain of entities being expanded; its last member is the entity to expand.
+fn entity_value_from_names(
+    names: &mut Vec<String>,
+    context: &Context,
+    normalize: bool,
+) -> error::Result<String> {
+    let name = names.last().cloned().unwrap_or_default();
+    let entity = context.entity(name.as_str())?;
     let mut parsed = String::new();
     for value in entity.borrow().values().unwrap_or_default() {
         match &value {
@@ -4356,7 +4378,14 @@ fn entity_value_from_name(name: &str, context: &Context, normalize: bool) -> err
                 }
             }
             XmlEntityValue::Entity(v) => {
-                let v = entity_value_from_name(v, context, normalize)?;
+                // WFC: No Recursion
+                if names.contains(v) {
+                    return Err(error::Error::InvalidData(v.to_string()));
+                }
+
+                names.push(v.to_string());
+                let v = entity_value_from_names(names, context, normalize)?;
+                names.pop();
                 parsed.push_str(v.as_str());
             }
             XmlEntityValue::Parameter(_) => {
